@@ -159,11 +159,29 @@ func addScrubFieldsToSelectionSet(ctx *PlanningContext, selectionSet ast.Selecti
 func addSelectionSetToSanitizedResult(s ast.SelectionSet, ss ...ast.Selection) ast.SelectionSet {
 	ss = lo.Filter(ss, func(sel ast.Selection, i int) bool {
 		f, ok := sel.(*ast.Field)
-		if ok && selectionSetHasFieldNamed(s, f.Alias) {
+		if ok && selectionSetHasResponseName(s, fieldResponseName(f)) {
 			return false
 		}
 		return true
 
 	})
 	return append(s, ss...)
+}
+
+func fieldResponseName(f *ast.Field) string {
+	if f.Alias != "" {
+		return f.Alias
+	}
+	return f.Name
+}
+
+// selectionSetHasResponseName checks if some field of selection set is returned under provided name
+func selectionSetHasResponseName(ss []ast.Selection, name string) bool {
+	for _, selection := range ss {
+		field, ok := selection.(*ast.Field)
+		if ok && fieldResponseName(field) == name {
+			return true
+		}
+	}
+	return false
 }
